@@ -1026,7 +1026,76 @@ def inner_order_case(ctx, seed):
     return []
 
 
+INNER_KINDS = {
+    "union-members": ["A", "B", "C"],
+    "interfaces": ["I1", "I2", "I3"],
+    "enum-values": ["P", "Q", "R"],
+    "input-fields": ["p: Int", "q: Int", "r: Int"],
+    "fields": ["p: Int", "q: Int", "r: Int"],
+    "field-arguments": ["a: Int", "b: Int", "c: Int"],
+    "directive-arguments": ["a: Int", "b: Int", "c: Int"],
+    "directive-locations": ["FIELD", "QUERY", "MUTATION"],
+}
+
+
+def inner_kinds_sdl(L):
+    return ("directive @d(%s) on %s\n"
+            "interface I1 { x: Int } interface I2 { y: Int } interface I3 { z: Int }\n"
+            "type A implements %s { x: Int y: Int z: Int }\ntype B { b: Int } type C { c: Int }\n"
+            "union U = %s\nenum E { %s }\ninput In { %s }\ntype T { %s }\n"
+            "type Query { a: A u: U t: T e(%s): Int i(i: In, e: E): Int }\n"
+            % (", ".join(L["directive-arguments"]), " | ".join(L["directive-locations"]), " & ".join(L["interfaces"]),
+               " | ".join(L["union-members"]), " ".join(L["enum-values"]), " ".join(L["input-fields"]),
+               " ".join(L["fields"]), ", ".join(L["field-arguments"])))
+
+
+def inner_kinds_case(ctx, kind, drop):
+    """DETERMINISTIC part of the inner-order oracle (guaranteed in every run, no PRNG): a fixed schema in which every
+    kind of member list has three elements; element `drop` of the list of kind `kind` is removed (and, reversed, added);
+    the report must be the same multiset under every rotation of that list in the old AND in the new schema, and it must
+    name the element. Catches a differ that looks at a prefix / suffix / first element of a member list."""
+    from py_gql import build_schema
+    base = {k: list(v) for k, v in INNER_KINDS.items()}
+    fails = []
+    ref = None
+    for rot in range(3):
+        for rot_new in range(2):
+            old = dict(base)
+            old[kind] = base[kind][rot:] + base[kind][:rot]
+            kept = [x for i, x in enumerate(base[kind]) if i != drop]
+            new = dict(base)
+            new[kind] = kept[rot_new:] + kept[:rot_new]
+            try:
+                a, b = build_schema(inner_kinds_sdl(old)), build_schema(inner_kinds_sdl(new))
+                got = (diff_live(a, b), diff_live(b, a))
+            except Exception as e:  # noqa
+                return [("inner-order-kinds-raises:%s:%s" % (kind, type(e).__name__), repr(e)[:200])]
+            ctx.count()
+            ctx.nontrivial(("inner-kinds", kind, drop, rot, rot_new))
+            if ref is None:
+                ref = got
+                elem = base[kind][drop].split(":")[0]
+                for direction, rep in (("removed", got[0]), ("added", got[1])):
+                    if not any(elem in c[2] for c in rep):
+                        fails.append(("inner-order-kinds:not-reported:%s:%s" % (kind, direction),
+                                      "element %d (%s) of the %s list %s: no change names it: %s"
+                                      % (drop, elem, kind, direction, rep[:3])))
+            elif got != ref:
+                lost = [c for c in ref[0] + ref[1] if c not in got[0] + got[1]] + \
+                       [c for c in got[0] + got[1] if c not in ref[0] + ref[1]]
+                fails.append(("inner-order-dependent:%s" % (lost[0][0] if lost else "multiplicity"),
+                              "%s list rotated by %d (old) / %d (new), element %d removed: the report changes: %s"
+                              % (kind, rot, rot_new, drop, lost[:2])))
+                return fails
+    ctx.stat("inner-order-kinds:" + kind)
+    return fails
+
+
 def inner_order_stage(ctx):
+    for kind in INNER_KINDS:
+        for drop in range(3):
+            for sig, what in inner_kinds_case(ctx, kind, drop):
+                ctx.fail(sig, what, {"inner_kinds": kind, "drop": drop, "what": what})
     want = ctx.n(12, 80)
     got = 0
     for j in range(want * 4):
@@ -1709,6 +1778,8 @@ def replay(ctx, data):
         return not same_response_shape_case(ctx)
     if inp.get("unrooted_operation_case"):
         return not unrooted_operation_case(ctx)
+    if "inner_kinds" in inp:
+        return not inner_kinds_case(ctx, inp["inner_kinds"], inp["drop"])
     if "inner_order_seed" in inp:
         return not inner_order_case(ctx, inp["inner_order_seed"])
     if "live_object_seed" in inp:
